@@ -443,3 +443,60 @@ def scope_witnesses():
                   src="Z = 5\n\nclass C:\n    Z = 9\n    def meth(self, d):\n        return Z + d\n\ndef f(a, b, c):\n    o = C()\n    return o.meth(a)\n" + TAIL,
                   known="bare name in a method binds to the class field instead of the module global"))
     return W
+
+
+def family_scope_generated():
+    """a name assigned in every non-empty subset of {module, f, inner, inner2}; read at every level where it is visible"""
+    out = []
+    levels = ["M", "f", "i1", "i2"]
+    for mask in range(1, 16):
+        S = {levels[k] for k in range(4) if mask >> k & 1}
+        vis_f = "f" in S or "M" in S
+        vis_1 = "i1" in S or vis_f
+        vis_2 = "i2" in S or vis_1
+        L = []
+        if "M" in S:
+            L.append("v = 1")
+        L.append("def f(a, b, c):")
+        if "f" in S:
+            L.append("    v = a + 2")
+        L.append("    def i1():")
+        if "i1" in S:
+            L.append("        v = a + 3")
+        L.append("        def i2():")
+        if "i2" in S:
+            L.append("            v = a + 4")
+        L.append("            return v" if vis_2 else "            return 0")
+        L.append("        r2 = i2()")
+        L.append("        return v * 10 + r2" if vis_1 else "        return r2")
+        L.append("    r1 = i1()")
+        L.append("    return v * 100 + r1" if vis_f else "    return r1")
+        out.append(dict(name=f"scopegen{mask:02d}", family="F-scope", src="\n".join(L) + "\n" + TAIL, bounds={}, known=None))
+    return out
+
+
+def family_calls_generated(limit=72):
+    """f performs three call statements; each picks a callee among three helpers (one of which calls another helper behind its own
+    guard) and is guarded by nothing / c / a < b."""
+    helpers = ("def g0(x):\n    return x + 1\n\ndef g1(x):\n    if x > 5:\n        return g2(x - 1)\n    return x + 2\n\n"
+               "def g2(x):\n    return x * 2\n")
+    guards = [None, "c", "a < b"]
+    out = []
+    idx = 0
+    import itertools
+    for callees in itertools.product(range(3), repeat=3):
+        for gs in itertools.product(range(3), repeat=3):
+            idx += 1
+            if (idx * 7) % 10 >= 1 and limit < 729:       # deterministic thinning to about a tenth
+                continue
+            L = ["s = 0"]
+            for k in range(3):
+                call = f"s = s + g{callees[k]}(a + {k})"
+                if guards[gs[k]] is None:
+                    L.append(call)
+                else:
+                    L.append(f"if {guards[gs[k]]}:")
+                    L.append("    " + call)
+            L.append("return s")
+            out.append(prog(f"callgen{idx:03d}", "F-call", L, helpers=helpers))
+    return out[:limit]
